@@ -602,28 +602,29 @@ fn client_handler<State>(
 
         // Generate the response based on the handlers
         let response = match &request {
-            Ok(request) if request.method == Method::Options => {
-                let handler = get_handler(request, &subapps, &default_subapp);
+            // An `OPTIONS` request to a route which exists is answered with the route's CORS headers.
+            // If no route matches, it falls through to the general case below so that the 404 response gets
+            //   the same version, `Date`, `Server`, `Connection` and `Content-Length` as any other response.
+            Ok(request)
+                if request.method == Method::Options
+                    && get_handler(request, &subapps, &default_subapp).is_some() =>
+            {
+                let handler = get_handler(request, &subapps, &default_subapp).unwrap();
 
-                match handler {
-                    Some(handler) => {
-                        let mut response = Response::empty(StatusCode::NoContent)
-                            .with_header(HeaderType::Date, DateTime::now().to_string())
-                            .with_header(HeaderType::Server, "Humphrey")
-                            .with_header(
-                                HeaderType::Connection,
-                                match keep_alive {
-                                    true => "Keep-Alive",
-                                    false => "Close",
-                                },
-                            );
+                let mut response = Response::empty(StatusCode::NoContent)
+                    .with_header(HeaderType::Date, DateTime::now().to_string())
+                    .with_header(HeaderType::Server, "Humphrey")
+                    .with_header(
+                        HeaderType::Connection,
+                        match keep_alive {
+                            true => "Keep-Alive",
+                            false => "Close",
+                        },
+                    );
 
-                        handler.cors.set_headers(&mut response.headers);
+                handler.cors.set_headers(&mut response.headers);
 
-                        response
-                    }
-                    None => error_handler(StatusCode::NotFound),
-                }
+                response
             }
             Ok(request) => {
                 let handler = get_handler(request, &subapps, &default_subapp);
